@@ -17,7 +17,7 @@ func init() {
 		Rule: "one case = (payloader configuration, MTU, history of 1-3 inputs on one instance); every call is made on an instance whose input buffers are overwritten afterwards and on a twin that gets pristine copies; non-trivial = at least one fragment was returned",
 		Assumptions: []string{
 			"14 payloader configurations: G711, G722, Opus, H264 +/-DisableStapA, H265 x AddDONL x SkipAggregation, VP8 without / with picture ids (fresh, and driven to the 15-bit id form), VP9 flexible / non-flexible (fixed InitialPictureIDFn), AV1",
-			"alphabet strings: every string up to 5 (quick) / 6 (thorough) bytes over an 8-symbol alphabet per codec (start-code bytes, NAL / OBU / VP9 frame header octets) for every MTU 0..12; structured corpus per codec (30-60 inputs from the reference writers: NAL sequences with 3/4-byte start codes, leading garbage, no start code, OBU streams with forbidden bit / truncated LEB128 / oversize field, valid, truncated and invalid VP9 headers, lengths around the MTU) for EVERY MTU 0..40 and {63,64,65,127,128,129,255,256,1200,65535}",
+			"alphabet strings: every string up to 5 (quick) / 6 (thorough) bytes over an 8-symbol alphabet per codec (start-code bytes, NAL / OBU / VP9 frame header octets) for every MTU 0..12; structured corpus per codec (30-60 inputs from the reference writers: NAL sequences with 3/4-byte start codes, leading garbage, no start code, OBU streams with forbidden bit / truncated LEB128 / oversize field, valid and invalid VP9 headers and every truncation of the headers of all four profiles (key and intra-only frames), lengths around the MTU) for EVERY MTU 0..40 and {63,64,65,127,128,129,255,256,1200,65535}",
 			"histories: all sequences of up to 3 inputs from a 14-20 input sub-corpus per codec over 12 MTUs; pairs over the full corpus",
 			"long histories: all sequences of 6 calls over 4 inputs per codec; large inputs (5000, 66000 and 140000 bytes, i.e. beyond 16-bit lengths and more than 256 / 65536 fragments; SPS+PPS of 65531 bytes; 300 small NAL units / OBUs in one call; OBUs of 16383/16384 bytes followed by a small one) for MTU {2,3,5,12,100,1200,20000,65535}",
 			"returning no fragment (MTU too small, unparsable input) is allowed; Opus ignores the MTU by design",
@@ -146,6 +146,21 @@ func c08Corpus(family string) [][]byte {
 		add(show.Encode(9, 3))
 		for cut := 1; cut < len(full); cut++ {
 			add(clone(full[:cut]))
+		}
+		// every truncation of the uncompressed header of the other profiles and frame kinds
+		for _, h := range []*ref.VP9FrameHeader{
+			{Profile: 1, ShowFrame: true, ColorSpace: 7, Width: 640, Height: 360},
+			{Profile: 2, ShowFrame: true, ColorSpace: 2, Width: 640, Height: 360},
+			{Profile: 2, TwelveBit: true, ShowFrame: true, ColorSpace: 7, Width: 640, Height: 360},
+			{Profile: 3, ShowFrame: true, ColorSpace: 1, Width: 640, Height: 360},
+			key3,
+			{Profile: 1, NonKey: true, IntraOnly: true},
+			{Profile: 2, NonKey: true, IntraOnly: true},
+		} {
+			e := h.Encode(0, 0)
+			for cut := 1; cut <= len(e); cut++ {
+				add(clone(e[:cut]))
+			}
 		}
 		add([]byte{0x42, 0x00, 0x01})                // invalid frame marker
 		add([]byte{0x82, 0x49, 0x83, 0x43, 0, 0, 0}) // wrong sync code
